@@ -16,6 +16,7 @@ pub enum Fam {
     Cipher,
     CipherNew,
     Hash,
+    HashOut,
     Threefish,
     VecIo,
     BlockApi,
@@ -51,6 +52,9 @@ pub fn kinds() -> Vec<KindDesc> {
     for (i, t) in TYPES.iter().enumerate() {
         let b = t.block;
         v.push(KindDesc { name: format!("update:{}", t.name), fam: Fam::Hash, a: i, b: 0, c: 0, bases: vec![0, b, 2 * b, 4 * b], pres: vec![0, 1, b - 1] });
+    }
+    for (i, t) in TYPES.iter().enumerate() {
+        v.push(KindDesc { name: format!("finalize_into:{}", t.name), fam: Fam::HashOut, a: i, b: 0, c: 0, bases: vec![], pres: vec![0, t.block - 1] });
     }
     for (i, n) in ["Threefish256", "Threefish512", "Threefish1024"].iter().enumerate() {
         for dec in 0..2 {
@@ -122,6 +126,7 @@ impl Scenario for S5 {
             .set("cipher", J::U(sw.range(0, 4) as u128))
             .set("ciphernew", J::U(sw.range(0, 1) as u128))
             .set("hash", J::U(sw.range(0, 4) as u128))
+            .set("hashout", J::U(sw.range(0, 2) as u128))
             .set("threefish", J::U(sw.range(0, 2) as u128))
             .set("vecio", J::U(sw.range(0, 3) as u128))
             .set("blockapi", J::U(sw.range(0, 1) as u128))
@@ -156,6 +161,7 @@ impl Scenario for S5 {
             (Fam::Cipher, fam.u_or("cipher", 2)),
             (Fam::CipherNew, fam.u_or("ciphernew", 1)),
             (Fam::Hash, fam.u_or("hash", 2)),
+            (Fam::HashOut, fam.u_or("hashout", 1)),
             (Fam::Threefish, fam.u_or("threefish", 1)),
             (Fam::VecIo, fam.u_or("vecio", 1)),
             (Fam::BlockApi, fam.u_or("blockapi", 1)),
@@ -180,6 +186,7 @@ impl Scenario for S5 {
                 let b = TYPES[d.a].block as u64;
                 (*r.pick(&[0, 0, 1, b - 1, b / 2]), if r.chance(1, 8) { r.range(0, 4200) } else { r.range(0, 5 * b) })
             }
+            Fam::HashOut => (r.range(0, 2 * TYPES[d.a].block as u64), 0),
             _ => (0, 0),
         };
         let mode = st.place.below(3) as u128;
@@ -339,6 +346,31 @@ fn exec(d: &KindDesc, pre: usize, len: usize, mode: Mode, off: usize, dseed: u64
                 return Err(("result depends on buffer placement".into(), format!("digest {} vs ordinary-buffer {}", crate::kit::json::hex(&da), crate::kit::json::hex(&db))));
             }
             Ok(hash_bytes(&da))
+        }
+        Fam::HashOut => {
+            // the digest is written into a caller-provided array: placed by the simulator like every other output
+            let msg = pattern(dseed, pre);
+            let mut a = new_hash(d.a);
+            let mut b = new_hash(d.a);
+            a.update(&msg);
+            b.update(&msg);
+            let outlen = TYPES[d.a].out;
+            let mut out = arena.place(1, &vec![0u8; outlen], mode, off);
+            let mut plain = vec![0u8; outlen];
+            if dseed & 16 == 0 {
+                a.finalize_into_at(out.slice_mut());
+                b.finalize_into_at(&mut plain);
+            } else {
+                a.finalize_into_reset_at(out.slice_mut());
+                b.finalize_into_reset_at(&mut plain);
+            }
+            if !arena.canaries_ok(&out) {
+                return Err(("writes outside the slice".into(), "canary bytes around the digest output were modified".into()));
+            }
+            if out.slice() != &plain[..] {
+                return Err(("result depends on buffer placement".into(), "digest written to the placed array differs".into()));
+            }
+            Ok(hash_bytes(&plain))
         }
         Fam::Threefish => threefish(d.a, d.b == 1, mode, off, dseed, arena),
         Fam::VecIo => {
